@@ -15,6 +15,7 @@ package py
 import (
 	"bytes"
 	"fmt"
+	"math/big"
 	"strconv"
 	"strings"
 	"unicode"
@@ -469,7 +470,29 @@ func (a String) M__mod__(other Object) (Object, error) {
 	// FIXME not a full implementation ;-)
 	params := make([]interface{}, len(values))
 	for i := range values {
-		params[i] = values[i]
+		switch v := values[i].(type) {
+		case Int, Float, String, Bool, Complex:
+			params[i] = v
+		case *BigInt:
+			params[i] = (*big.Int)(v)
+		case *Exception:
+			// an exception shows as its go error text
+			params[i] = String(v.Error())
+		default:
+			// fmt must not be let loose on the go representation
+			// of an object: it shows what python code must not
+			// see and recurses for ever in a container which
+			// contains itself
+			text, err := Str(v)
+			if err != nil {
+				return nil, err
+			}
+			str, ok := text.(String)
+			if !ok {
+				return nil, ExceptionNewf(TypeError, "__str__ returned non-string (type %s)", text.Type().Name)
+			}
+			params[i] = str
+		}
 	}
 	s := string(a)
 	s = strings.Replace(s, "%s", "%v", -1)
